@@ -433,8 +433,10 @@ Definition step (y : sys) (ev : event) : option sys :=
       end
   | EvG GStartCall =>
       match in_call y with
-      | InIdle => if (valid (st0 y) || valid (st1 y)) && workers_idle (st0 y) && workers_idle (st1 y)
-                 then Some (y <| in_call := InStart |> <| st0 ::= begin_start |> <| st1 ::= begin_start |>) else None
+      | InIdle => if valid (st0 y) || valid (st1 y) then
+                    if workers_idle (st0 y) && workers_idle (st1 y)
+                    then Some (y <| in_call := InStart |> <| st0 ::= begin_start |> <| st1 ::= begin_start |>) else None
+                  else Some (y <| in_call := InStartFail |>)     (* no valid stream: acquire_start fails at once (and aborts nothing) *)
       | _ => None
       end
   | EvG (GStartRet ok) =>
